@@ -101,6 +101,25 @@ def run(chk):
                    'ops': [lazy, other, {'op': 'resume', 'of': 0}], 'same_func': rng.random() < .5, 'relax_shape': True, 'all_valid': True})
     run_scenarios(chk, 'a lazy call created but not started, another call, then the lazy one (DetSim)', nl, {'C02', 'C01'}, nontrivial=lambda sc, o: True,
                   dist=lambda sc, o: {'lazy': sc['ops'][0]['op'], 'other': sc['ops'][1]['op'], 'elem': sc['ops'][0]['elem'] + '/' + sc['ops'][1]['elem']})
+    # apply submissions between two calls of one function on kept-alive workers, or in the middle of a lazy call: the chunks that
+    # follow are still run by the call's own function (the apply task's function is that task's alone)
+    am = []
+    for _ in range(50 if chk.tier == 'quick' else 700):
+        nj = rng.choice([1, 2, 3])
+        k = rng.randint(1, 2 * nj)
+        ap = {'op': 'apply_batch', 'tasks': [{'idx': i} for i in range(k)], 'dur': {'kind': 'map', 'map': {}, 'default': 0.0}, 'get_timeout': 30}
+        kindu = rng.choice(['map_unordered', 'imap_unordered', 'map', 'imap'])
+        if rng.random() < .5:
+            ops = [{'op': kindu, 'n': rng.randint(2, 8), 'chunk_size': rng.choice([1, 2]), 'elem': 'scalar', 'func_group': 0}, ap,
+                   {'op': kindu, 'n': rng.randint(2 * nj, 4 * nj), 'chunk_size': rng.choice([1, 2]), 'elem': 'scalar', 'func_group': 0}]
+            pool = {'n_jobs': nj, 'start_method': rng.choice(['fork', 'threading']), 'keep_alive': True}
+        else:
+            ops = [{'op': rng.choice(['imap_unordered', 'imap']), 'n': rng.randint(4 * nj, 8 * nj), 'chunk_size': 1, 'elem': 'scalar', 'max_tasks_active': rng.choice([1, 2, nj]),
+                    'consume': rng.randint(1, 2), 'func_group': 0}, ap, {'op': 'resume', 'of': 0}]
+            pool = {'n_jobs': nj, 'start_method': rng.choice(['fork', 'threading'])}
+        am.append({'seed': rng.randint(0, 10 ** 6), 'pool': pool, 'ops': ops, 'relax_shape': True, 'all_valid': True})
+    run_scenarios(chk, 'apply submissions between or inside calls of one function on the same workers (DetSim)', am, {'C02', 'C01'}, nontrivial=lambda sc, o: True,
+                  dist=lambda sc, o: {'shape': 'inside a lazy call' if sc['ops'][-1]['op'] == 'resume' else 'between two calls', 'n_jobs': sc['pool']['n_jobs']})
     # workers that are still starting up when the next call hands out its parameters: started by an apply submission that is over before
     # the others have come up, or replaced a moment ago
     bs = []
